@@ -114,6 +114,37 @@ pub fn run<A: Cx>(d: &mut Drv<A>, scale: usize, all_offsets: bool) {
                 // owned keys found by borrowed slices
                 d.emit(json!({"op": "mapget", "keys": [1, 4], "q": ys.clone()}));
                 d.emit(json!({"op": "mapget", "keys": [4, 2], "q": xs.clone()}));
+                d.emit(json!({"op": "mapget", "keys": [4, 2], "q": xs.clone(), "via": "refkeys"}));
+                d.emit(json!({"op": "mapget", "keys": [1, 4], "q": ys.clone(), "via": "btree"}));
+                // two windows of the SAME parent: x and y side by side in one buffer, compared with each
+                // other, with shifted windows and with overlapping ones
+                if vi % 3 == 0 {
+                    let gap = d.rng.below(3);
+                    let mut pc = d.rand_syms(oa % 5);
+                    let s1 = pc.len();
+                    pc.extend_from_slice(&x);
+                    pc.extend(d.rand_syms(gap));
+                    let s2 = pc.len();
+                    pc.extend_from_slice(y);
+                    pc.extend(d.rand_syms(2));
+                    d.emit(json!({"op": "fromsyms", "dst": 5, "c": A::NAME, "via": "iter", "syms": pc}));
+                    let w1 = sl(5, s1, s1 + n);
+                    let w2 = sl(5, s2, s2 + y.len());
+                    d.emit(json!({"op": "eq", "x": opnd("slice", w1.clone()), "y": opnd("slice", w2.clone())}));
+                    d.emit(json!({"op": "eq", "x": opnd("refslice", w2.clone()), "y": opnd("refslice", w1.clone())}));
+                    d.emit(json!({"op": "eq", "x": opnd("refslice", w1.clone()), "y": opnd("slice", w1.clone())}));
+                    if n >= 1 {
+                        // same length, start shifted by one / two symbols inside the same word
+                        for sh in [1usize, 2] {
+                            d.emit(json!({"op": "eq", "x": opnd("slice", w1.clone()), "y": opnd("slice", sl(5, s1 + sh, s1 + sh + n))}));
+                            d.emit(json!({"op": "eq", "x": opnd("refslice", sl(5, s1 + sh, s1 + sh + n)), "y": opnd("slice", w1.clone())}));
+                        }
+                        d.emit(json!({"op": "hash", "x": opnd("slice", sl(5, s1 + 1, s1 + 1 + n))}));
+                    }
+                    d.emit(json!({"op": "hash", "x": opnd("slice", w1.clone())}));
+                    d.emit(json!({"op": "hash", "x": opnd("refslice", w2.clone())}));
+                    d.emit(json!({"op": "mapget", "keys": [5], "q": w1.clone()}));
+                }
                 // k-mers on every storage that fits
                 if n >= 1 && y.len() == n {
                     for (st, k0) in [("usize", 0usize), ("u64", 2), ("u128", 4)] {
